@@ -6,9 +6,10 @@ use std::{
 
 pub fn file_char_stream(path: &Path) -> Result<impl Iterator<Item = char>, std::io::Error> {
     let f = BufReader::new(File::open(path)?);
-    Ok(f.lines().flat_map(|line| {
-        line.unwrap()
-            .chars()
+    // read eagerly, so that an unreadable file (a directory, invalid UTF-8) is reported as an error
+    let lines = f.lines().collect::<Result<Vec<String>, std::io::Error>>()?;
+    Ok(lines.into_iter().flat_map(|line| {
+        line.chars()
             .chain(std::iter::once('\n'))
             .collect::<Vec<_>>()
             .into_iter()
